@@ -118,6 +118,17 @@ def run(ctx, F):
         upper = any(op in ("Le",) and "arg2" in c or op in ("Ge",) and "arg2" in a for op, (a, c) in cmps)
         lower = any(op in ("Ge",) and "Neg" in c or op in ("Le",) and "Neg" in a for op, (a, c) in cmps)
         signs = "<i64>::is_positive" in calls and "<i64>::is_negative" in calls
+        # other spellings of the sign test: `n.cmp(&0)` matched on Greater / Less, or `n > 0` / `n < 0`
+        for bi, t in ib.calls():
+            if re.search(r"(Ord|PartialOrd)>?::(cmp|partial_cmp)$", mir.callee_name(t) or "") and len(t["args"]) == 2:
+                a1 = repr(S.operand(ib, t["args"][1]))
+                prom0 = any(str(o.get("v")) == "0" for pr in ib.raw.get("promoted", []) for blk in pr["blocks"] for st in blk["stmts"]
+                            if st["k"] == "assign" for o in (st["rv"].get("ops") or []) if o.get("k") == "const")
+                if re.search(r"\('const', '?0'?\)", a1) or ("'promoted'" in a1 and prom0):
+                    signs = True
+        zero_cmp = {op for op, (a, c) in cmps if c in ("0", "const(0)", "'0'") or a in ("0", "const(0)", "'0'")}
+        if {"Gt", "Lt"} <= zero_cmp or {"Ge", "Le"} <= zero_cmp:
+            signs = True
         if upper and lower and signs:
             ctx.ok("F5-index-bounds", "index_of accepts 1..=len and -len..=-1", txt[:200])
         else:
